@@ -37,7 +37,7 @@ Fixpoint zset {A} (k : Z) (v : A) (l : list (Z * A)) : list (Z * A) :=
 Fixpoint zdel {A} (k : Z) (l : list (Z * A)) : list (Z * A) :=
   match l with
   | [] => []
-  | (k', v') :: t => if k =? k' then t else (k', v') :: zdel k t
+  | (k', v') :: t => if k =? k' then zdel k t else (k', v') :: zdel k t
   end.
 
 Definition zmem (k : Z) (l : list Z) : bool := existsb (Z.eqb k) l.
